@@ -298,9 +298,9 @@ class VectorizedMatrixBasis(Basis):
             # When performance issues arise, reconsider.
             if type(b) == np.ndarray:
                 vectorized_b = b.flatten()
-                vectorized_b.setflags(write=False)
             else:
                 vectorized_b = b.toarray().flatten()
+            vectorized_b.setflags(write=False)
             temp_basis.append(vectorized_b)
         self._basis: Tuple[np.ndarray, ...] = tuple(temp_basis)
 
